@@ -451,7 +451,7 @@ func (x *exec) taskOp(t *task, i int, st scn.Step) {
 	text, api, limit := x.opText(st)
 	ei := st.E % len(x.s.Exprs)
 	d := st.D % len(x.docs)
-	e := &Env{Budget: budgetFor(want)}
+	e := &Env{Budget: budgetFor(want), CrashAt: st.Crash}
 	t.env = e
 	s.onEvent(evOpBegin, uint64(ei), nil)
 	nav := world.NewNav(x.docs[d], st.C, t.id)
@@ -494,7 +494,10 @@ func (x *exec) taskOp(t *task, i int, st scn.Step) {
 	t.stats.Steps += int64(e.Steps)
 	t.stats.NavCalls += int64(e.NavCalls)
 	t.stats.Ops++
-	if !want.Aborted() {
+	if e.Crashed {
+		t.stats.Faults["nav-panic"]++
+	}
+	if !want.Aborted() && !(e.Crashed && got.Aborted()) {
 		t.stats.OpsCompared++
 		if got.Key() != want.Key() {
 			kind := "divergence"
